@@ -172,6 +172,41 @@ def one_ostree(rng, res):
             if i["ok"] != exp:
                 res.fail("oracle", {"op": "ostree", "refs": ask},
                          {"why": "ostree: digest is not the SHA-256 of the commit object the ref points to", "impl": i, "expected": exp})
+            # the same refs recorded again in the same process after a commit object was rewritten in place (same object
+            # name, other bytes), and from a second repository with the same ref and object names: the digest is that of
+            # the bytes on disk at that moment, whatever was recorded before
+            victim = rng.choice(sorted(set(ask) & set(refs)))
+            commit = refs[victim][0]
+            obj_path = os.path.join(d, "objects", commit[:2], commit[2:] + ".commit")
+            if os.path.exists(obj_path):
+                new_obj = b"rewritten-%d" % rng.randrange(10**6)
+                where = d
+                if rng.random() < 0.5:
+                    with open(obj_path, "wb") as f:
+                        f.write(new_obj)
+                else:
+                    where = tempfile.mkdtemp(prefix="verif-c20o2-")
+                    os.makedirs(os.path.join(where, "refs", "heads", os.path.dirname(victim)), exist_ok=True)
+                    with open(os.path.join(where, "refs", "heads", victim), "w") as f:
+                        f.write(commit + "\n")
+                    os.makedirs(os.path.join(where, "objects", commit[:2]))
+                    with open(os.path.join(where, "objects", commit[:2], commit[2:] + ".commit"), "wb") as f:
+                        f.write(new_obj)
+                try:
+                    r2 = rl.record_artifacts_as_dict(["ostree:" + victim], base_path=where)
+                    got = r2["ostree:" + victim]["sha256"]
+                except Exception as e:  # pylint: disable=broad-except
+                    got = type(e).__name__
+                finally:
+                    if where != d:
+                        shutil.rmtree(where, ignore_errors=True)
+                res.evaluations += 1
+                res.count("ostree_rerecorded")
+                if got != hashlib.sha256(new_obj).hexdigest():
+                    res.fail("oracle", {"op": "ostree", "refs": [victim], "history": "recorded, object %s, recorded again" % (
+                        "rewritten in place" if where == d else "of the same name in another repository")},
+                             {"why": "ostree: digest is not the SHA-256 of the commit object on disk at the time of recording",
+                              "recorded": got, "expected": hashlib.sha256(new_obj).hexdigest()})
     finally:
         shutil.rmtree(d, ignore_errors=True)
 
